@@ -94,7 +94,9 @@ def new_op(rng, kind, idn=0, small=False, **over):
                 f //= 2
             f = max(unit, (f // unit) * unit)
             op["sub"] = 1 if kind == "FftFixedInOut" else rng.choice([1, 2, 3, 4, 5, 6, 7, 8])
-            op["chunk"] = f * op["sub"]
+            # ... or one frame less / more than whole blocks (the parked frames then run through every residue,
+            # "one frame short of a block" included)
+            op["chunk"] = max(1, f * op["sub"] + rng.choice([0, 0, 0, -1, 1]))
         # TLC's integers are 32 bits: the contract multiplies frame totals by the reduced rates
         # (totOut * fs_in/gcd against totIn * fs_out/gcd); keep 100 calls' worth of frames below 2^30
         g = gcd(op["fs_in"], op["fs_out"])
@@ -198,16 +200,36 @@ def superseded_history(rng, kind):
         over.update({"L": rng.choice([8, 16, 64]), "F": rng.choice([2, 16, 128, 100])})
     n = new_op(rng, kind, **over)
     if kind.endswith("In"):
-        n["chunk"] = rng.choice([7, 33, 64, 100, 257, 777])
+        n["chunk"] = rng.choice([7, 33, 64, 100, 257, 777, 1024])
+    elif kind.startswith("Sinc"):
+        n["chunk"] = rng.choice([16, 64, 256, 1024])
     ops = [n]
     orig, maxrel = frac_of(n["r"]), frac_of(n["maxrel"])
     rels = [x for x in in_range_rels(maxrel)]
     for _ in range(rng.randrange(3, 8)):
         for _p in range(rng.randrange(0, 4)):
             ops.append({"op": "process", "id": 0})
+        if kind.startswith("Sinc") and rng.random() < 0.4:
+            # a ramp that spans a large swing of the chunk size: shrink, process, request the ramp, grow back
+            # (or the mirror image), then process
+            c = n["chunk"]
+            small = rng.choice([1, min(7, c), max(1, c // 16)])
+            x = orig * rng.choice([r for r in rels if r >= Fraction(3, 2)] or [maxrel]) if rng.random() < 0.6 \
+                else orig * rng.choice([r for r in rels if r <= Fraction(2, 3)] or [1 / maxrel])
+            first, second = (small, c) if rng.random() < 0.6 else (c, small)
+            ops += [{"op": "set_chunk", "id": 0, "n": first}, {"op": "process", "id": 0},
+                    {"op": "set_ratio", "id": 0, "x": rj(x), "ramp": True, "rel": False},
+                    {"op": "set_chunk", "id": 0, "n": second}, {"op": "process", "id": 0, "out": "max"},
+                    {"op": "process", "id": 0},
+                    {"op": "set_ratio", "id": 0, "x": rj(orig), "ramp": False, "rel": False}, {"op": "process", "id": 0}]
+            continue
         for _s in range(rng.randrange(2, 4)):
-            if kind.startswith("Sinc") and rng.random() < 0.2:
-                ops.append({"op": "set_chunk", "id": 0, "n": rng.randrange(1, n["chunk"] + 1)})
+            if kind.startswith("Sinc") and rng.random() < 0.35:
+                # large swings of the chunk size (shrink to a few frames, grow back to the maximum), so that a
+                # pending ramp spans calls of very different sizes (seeded change C04j)
+                c = n["chunk"]
+                ops.append({"op": "set_chunk", "id": 0,
+                            "n": rng.choice([1, min(7, c), max(1, c // 16), max(1, c // 2), c, c, rng.randrange(1, c + 1)])})
             else:
                 x = orig * rng.choice(rels)
                 if rng.random() < 0.3:
@@ -231,8 +253,17 @@ def huge_history(rng, kind):
             over.update({"L": rng.choice([8, 16, 64]), "F": rng.choice([2, 16, 128])})
         allow = ("ratio", "ramp", "chunk", "via")
     else:
-        a, b = rng.choice([(1, 2), (2, 1), (3, 2), (2, 3), (147, 160), (160, 147), (1, 1), (44100, 48000)])
-        over = {"chunk": chunk, "fs_in": a, "fs_out": b, "sub": rng.choice([1, 2, 4]), "ch": rng.choice([1, 2])}
+        a, b = rng.choice([(1, 2), (2, 1), (3, 2), (2, 3), (147, 160), (160, 147), (1, 1), (44100, 48000), (4091, 4000)])
+        from math import gcd
+        g = gcd(a, b)
+        unit = (b if kind == "FftFixedOut" else a) // g
+        if rng.random() < 0.6:
+            # blocks of more than 10 000 frames, the chunk one frame short of / exactly / one frame beyond a
+            # whole block (seeded change C03k: f32 block counts with a rounding guard)
+            m = max(1, rng.choice([10500, 12273, 20000, 33000]) // unit)
+            chunk = m * unit + rng.choice([-1, -1, 0, 1])
+            ncalls = 4
+        over = {"chunk": chunk, "fs_in": a, "fs_out": b, "sub": rng.choice([1, 1, 2, 4]), "ch": rng.choice([1, 2])}
         allow = ("via",)
     return valid_history(rng, kind, ncalls, allow=allow, **over)
 
